@@ -368,6 +368,102 @@ def stream_calls(ctx, n):
     return cases, hist
 
 
+def stream_history(ctx, n):
+    """The verdict must not depend on what was checked before: the same guarded function is called several times in a
+    row with quantities of the SAME (actual, declared) dimension pair but different magnitudes -- zero / infinite (passes as
+    any-dimension), then non-zero (must be judged on its dimension), a bare number, again non-zero.  Each verdict is
+    compared with the (stateless) model."""
+    from symplyphysics import Quantity, validate_input  # pylint: disable=import-outside-toplevel
+    rng = ctx.rng
+    cases = []
+    for _ in range(n):
+        vec, ang = rand_dimvec(rng)
+        xvec, xang = (vec, ang) if rng.random() < 0.3 else rand_dimvec(rng)
+        try:
+            adim = dimension_from_vec(vec, ang, rng)
+            exp, xdesc = gen_expected(rng, xvec, xang)
+            elit = gexp_lit(exp)
+            unit = unit_expr_from_vec(vec, 0, rng)
+            seq = [Quantity(S.Zero, dimension=adim), Quantity(rng.choice(MAGS) * unit), Quantity(3), Quantity(oo, dimension=adim),
+                Quantity(rng.choice(MAGS) * unit), 5, Quantity(0 * unit), Quantity(rng.choice(MAGS) * unit)]
+            rng.shuffle(seq)
+            seq = seq[:rng.choice([3, 4, 5, 6])]
+            lits = [garg_lit(a) for a in seq]
+        except qx.Unsupported:
+            continue
+        ns = {}
+        exec("def probe(a_):\n    return None\n", ns)  # pylint: disable=exec-used
+        fn = validate_input(a_=exp)(ns["probe"])
+        for step, (a, alit) in enumerate(zip(seq, lits)):
+            v, msg = run_impl(fn, a)
+            cases.append({"lit": f"({alit}, {elit}, {verdict_lit(v)})", "arg": a, "exp": exp, "impl": v, "msg": msg, "kind": "history",
+                "desc": f"call #{step + 1} of a sequence on one guarded function (declared {xdesc}): {a}"})
+    return cases
+
+
+def stream_qvec(ctx, n):
+    """QuantityVector construction: each component checked (angle slots of curvilinear systems against angle)."""
+    from symplyphysics import Quantity, QuantityVector, angle_type  # pylint: disable=import-outside-toplevel
+    from symplyphysics.core.coordinate_systems.coordinate_systems import CoordinateSystem  # pylint: disable=import-outside-toplevel
+    rng = ctx.rng
+    systems = [CoordinateSystem(CoordinateSystem.System.CARTESIAN), CoordinateSystem(CoordinateSystem.System.CYLINDRICAL),
+        CoordinateSystem(CoordinateSystem.System.SPHERICAL)]
+    cases = []
+    hist = {}
+    tries = 0
+    while len(cases) < n and tries < 4 * n:
+        tries += 1
+        sys_i = rng.randrange(3)
+        vec, _a = rand_dimvec(rng, with_angle=False)
+        ncomp = rng.choice([0, 1, 2, 3, 3, 3])
+        override = None
+        if rng.random() < 0.35:
+            override = dimension_from_vec(*( (vec, Fraction(0)) if rng.random() < 0.7 else rand_dimvec(rng, with_angle=False)), rng)
+        comps, lits = [], []
+        try:
+            for idx in range(ncomp):
+                angle_slot = (sys_i == 1 and idx == 1) or (sys_i == 2 and idx in (1, 2))
+                r = rng.random()
+                if angle_slot and r < 0.7:
+                    v2, a2 = tuple(Fraction(0) for _ in vec), Fraction(1)
+                elif r < 0.8:
+                    v2, a2 = vec, Fraction(0)
+                else:
+                    v2, a2 = rand_dimvec(rng)
+                k = rng.random()
+                if k < 0.12:
+                    c = Quantity(S.Zero, dimension=dimension_from_vec(v2, a2, rng))
+                elif k < 0.75:
+                    c = Quantity(rng.choice(MAGS) * unit_expr_from_vec(v2, 0, rng))
+                    if a2 != 0:
+                        c = Quantity(c.scale_factor, dimension=c.dimension * angle_type**int(a2))
+                elif k < 0.9:
+                    c = rng.choice(MAGS) * unit_expr_from_vec(v2, 0, rng)      # raw expression
+                else:
+                    c = rng.choice([0, 1, 5, Float(0.0)])                        # bare number
+                comps.append(c)
+                if isinstance(c, Quantity):
+                    lits.append(f"(CQ {qx.val_lit(qx.val_class(c.scale_factor))} {qx.dim_lit(qx.dim_vec(c.dimension))})")
+                else:
+                    lits.append(f"(CE {qx.qexpr_lit(c)})")
+            olit = "None" if override is None else f"(Some {qx.dim_lit(qx.dim_vec(override))})"
+        except qx.Unsupported:
+            continue
+        try:
+            qv = QuantityVector(comps, systems[sys_i], dimension=override) if override is not None else QuantityVector(comps, systems[sys_i])
+            obs = ("ok", qx.dim_vec(qv.dimension))
+            rlit = f"(Ok {qx.dim_lit(obs[1])})"
+        except qx.Unsupported:
+            continue
+        except Exception as e:  # pylint: disable=broad-except
+            obs = ("err", qx.err_class(e), f"{type(e).__name__}: {e}"[:160])
+            rlit = f"(Err {obs[1]}%N)"
+        cases.append({"lit": f"({sys_i}%nat, [{'; '.join(lits)}], {olit}, {rlit})", "impl": obs, "msg": str(obs), "kind": "qvec",
+            "desc": f"QuantityVector({[str(c) for c in comps]}, system #{sys_i}, dimension={override})"})
+        hist[("qvec", obs[0] if obs[0] == "ok" else obs[1])] = hist.get(("qvec", obs[0] if obs[0] == "ok" else obs[1]), 0) + 1
+    return cases, hist
+
+
 # ---------------------------------------------------------------------------------------------
 # catalogue
 # ---------------------------------------------------------------------------------------------
@@ -538,7 +634,7 @@ def catalogue(ctx):
 STATIC = ["C04_gate1_pass_iff", "C04_gate1_typeerr_iff", "C04_gate1_unitserr_iff", "C04_gate1_partition",
     "C04_bare_number_refused", "C04_any_value_passes", "C04_magnitude_irrelevant", "C04_prefix_irrelevant",
     "C04_seq_pass_iff", "C04_seq_first_failure", "C04_runs_only_if_all_pass", "C04_output_gate",
-    "C04_bind_style_irrelevant"]
+    "C04_bind_style_irrelevant", "C04_qvec_every_component_checked", "C04_qvec_failure_refuses"]
 
 
 def decide_disagreements(ctx, cases, bad, stream):
@@ -586,9 +682,32 @@ def run(ctx):
     for c in calls[:2]:
         ctx.sample({"stream": "calls", "case": c["desc"], "impl_verdict": c["impl"]})
 
+    # history-independence and QuantityVector construction
+    hcases = stream_history(ctx, ctx.pick(150, 1500))
+    bad3 = coqrun.eval_cases(ctx, "history", qx.PREAMBLE, [c["lit"] for c in hcases],
+        "fun c : garg * garg * verdict => verdict_eqb (gate (GOne (fst (fst c))) (SOne (snd (fst c)))) (snd c)",
+        case_type="garg * garg * verdict")
+    decide_disagreements(ctx, hcases, bad3, "history")
+    ctx.evaluated(len(hcases), len({c["lit"] for c in hcases}))
+    for c in hcases[:1]:
+        ctx.sample({"stream": "history", "case": c["desc"], "impl_verdict": c["impl"]})
+    qcases, hist3 = stream_qvec(ctx, ctx.pick(500, 5000))
+    qpre = qx.PREAMBLE.replace("Model.Gate.", "Model.Gate Model.QVec.")
+    bad4 = coqrun.eval_cases(ctx, "qvec", qpre, [c["lit"] for c in qcases],
+        "fun c : nat * list qcomp * option dim * result dim => let '(s, cs, o, r) := c in rdim_eqb (qvec_ctor s cs o) r",
+        case_type="nat * list qcomp * option dim * result dim")
+    for i in bad4[:30]:
+        c = qcases[i]
+        ctx.violation(f"C04:qvec:{c['lit'][:300]}", f"QuantityVector construction: model and implementation disagree on {c['desc'][:160]}",
+            {"kind": "disagreement", "stream": "qvec", "case": c["desc"], "gallina": c["lit"], "observed": c["msg"],
+             "theorem_or_tie": "correspondence QVec.v ~ QuantityVector.__init__"}, found_input=False)
+    ctx.evaluated(len(qcases), len({c["lit"] for c in qcases}))
+    for c in qcases[:2]:
+        ctx.sample({"stream": "qvec", "case": c["desc"], "observed": c["msg"][:120]})
     hist.update(hist2)
+    hist.update(hist3)
     ctx.coverage["verdict_histogram"] = {f"{k[0]}:{k[1]}": v for k, v in sorted(hist.items(), key=str)}
-    ctx.coverage["disagreements"] = len(bad) + len(bad2)
+    ctx.coverage["disagreements"] = len(bad) + len(bad2) + len(bad3) + len(bad4)
 
     catalogue(ctx)
     ctx.coverage["rule"] = ("gate1: seeded (actual, declared) pairs over the 7 base dimensions + angle with exponents in "
